@@ -12,10 +12,10 @@ def I(name):
 # T5 is an array-like type: it refers to the earlier type T1 and to the earlier constant C2 (its length); C2 refers to its type T1.
 # The storages panic on an id that has not been appended yet (HashMap index), so a use before the lift of its declaration is a panic.
 DEPS = {"C2": [("types", "T1")], "T5": [("types", "T1"), ("constants", "C2")]}
-RID = {"T5": True, "PHI2": True, "T1": True, "C2": True, "X3": True, "T4": False, "DEF": True, "LABEL": True, "LINE": False, "PHI": True, "OP1": True, "OP2": False, "TERM": False,
+RID = {"OP3": True, "LABEL2": True, "TERM2": False, "T5": True, "PHI2": True, "T1": True, "C2": True, "X3": True, "T4": False, "DEF": True, "LABEL": True, "LINE": False, "PHI": True, "OP1": True, "OP2": False, "TERM": False,
        "CAP0": False, "CAP1": False, "MM": False}
-RTYPE = {"DEF": True, "PHI": True, "PHI2": True, "OP1": True, "C2": True}
-OPCODE = {"LINE": "Line", "PHI": "Phi", "PHI2": "Phi", "OP1": "IAdd", "OP2": "Store", "TERM": "Return", "T1": "TypeInt", "T4": "TypeForwardPointer", "T5": "TypeArray", "C2": "ConstantTrue",
+RTYPE = {"OP3": True, "DEF": True, "PHI": True, "PHI2": True, "OP1": True, "C2": True}
+OPCODE = {"OP3": "IAdd", "LABEL2": "Label", "TERM2": "Return", "LINE": "Line", "PHI": "Phi", "PHI2": "Phi", "OP1": "IAdd", "OP2": "Store", "TERM": "Return", "T1": "TypeInt", "T4": "TypeForwardPointer", "T5": "TypeArray", "C2": "ConstantTrue",
           "X3": "Variable", "DEF": "Function", "LABEL": "Label", "CAP0": "Capability", "CAP1": "Capability", "MM": "MemoryModel"}
 
 
@@ -50,12 +50,18 @@ class H(Hooks):
             if name == "def":
                 return ("some", I("DEF"))
             if name == "blocks":
-                return ("list", [("ablock",)])
-        if base == ("ablock",):
+                # the second block has no phi: it must not inherit the arguments of the first
+                return ("list", [("ablock", 1), ("ablock", 2)])
+        if base == ("ablock", 1):
             if name == "instructions":
                 return ("list", [I("LINE"), I("PHI"), I("PHI2"), I("OP1"), I("OP2"), I("TERM")])
             if name == "label":
                 return ("some", I("LABEL"))
+        if base == ("ablock", 2):
+            if name == "instructions":
+                return ("list", [I("OP3"), I("TERM2")])
+            if name == "label":
+                return ("some", I("LABEL2"))
         if isinstance(base, tuple) and base[0] == "ainst":
             n = base[1]
             if name == "result_id":
@@ -163,5 +169,8 @@ def expected():
         ("entry.insert", "ops", ("id", "OP1"), ("struct", "OpInfo", {"op": tok("ops", ("id", "OP1")), "ty": ("some", ("info_of", "types", ("rt", "OP1")))})),
         ("append_id", "blocks", ("id", "LABEL"), ("struct", "Block", {"arguments": ("list", [tok("types", ("rt", "PHI")), tok("types", ("rt", "PHI"))]), "ops": ("list", []),
                                                                         "terminator": ("lifted_terminator", "TERM")})),
+        ("append", "ops", ("id", "OP3"), ("lifted_op", "OP3")),
+        ("entry.insert", "ops", ("id", "OP3"), ("struct", "OpInfo", {"op": tok("ops", ("id", "OP3")), "ty": ("some", ("info_of", "types", ("rt", "OP3")))})),
+        ("append_id", "blocks", ("id", "LABEL2"), ("struct", "Block", {"arguments": ("list", []), "ops": ("list", []), "terminator": ("lifted_terminator", "TERM2")})),
     ]
     return events
